@@ -25,11 +25,15 @@ def parseOp (line : String) : Option Op :=
   match fields line with
   | ["cfg", n, q, c] => do
     let n ← natTok n; let q ← natTok q; let c ← natTok c
-    pure (.cfg n q c)
+    pure (.cfg n q c false)
   | ["cfg", n, q, c, h, k] => do
     let n ← natTok n; let q ← natTok q; let c ← natTok c; let h ← natTok h; let k ← natTok k
     -- H (hedge at once) and K (store kind) do not change the modelled behaviour
-    if h > 1 ∨ k > 1 then none else pure (.cfg n q c)
+    if h > 1 ∨ k > 1 then none else pure (.cfg n q c false)
+  | ["cfg", n, q, c, h, k, u] => do
+    let n ← natTok n; let q ← natTok q; let c ← natTok c; let h ← natTok h; let k ← natTok k; let u ← natTok u
+    -- K=1 ∧ U=1: MessageDB stores fed with server-allocated, unkeyed records (`Store.fresh`)
+    if h > 1 ∨ k > 1 ∨ u > 1 then none else pure (.cfg n q c (k == 1 && u == 1))
   | ["repair", l, f, nf] => do
     let l ← natTok l; let f ← natTok f; let nf ← natTok nf
     pure (.repair l f nf)
